@@ -35,11 +35,35 @@ import (
 // ---------------------------------------------------------------------------------------------------------------
 // domain
 
+// alphabet is the set of names one BFS phase draws from. Every phase contains the plain names (which collide
+// exactly) and, for ONE kind of entity, every name of the "look-alike" family of the first plain name: names that
+// differ from it only by something a store might normalise away - a leading blank, a trailing blank, letter case -
+// and, for buckets, a blank-padded system bucket name.
+type alphabet struct {
+	label             string
+	orgs, bkts, users []string
+}
+
 var (
-	orgNames  = []string{"oA", "oB", "oA "} // "oA " collides with "oA" in the (trimmed) organization name index
-	bktNames  = []string{"bA", "bB"}
-	userNames = []string{"uA", "uB"}
+	plainOrgs  = []string{"oA", "oB", "oA "} // "oA " collides with "oA" in the (trimmed) organization name index
+	plainBkts  = []string{"bA", "bB"}
+	plainUsers = []string{"uA", "uB"}
+
+	alphaPlain   = alphabet{"plain", plainOrgs, plainBkts, plainUsers}
+	alphaBuckets = alphabet{"bucket-lookalikes", plainOrgs[:2], []string{"bA", "bB", " bA", "bA ", "BA", " " + sysTasks}, plainUsers}
+	alphaOrgs    = alphabet{"org-lookalikes", []string{"oA", "oB", "oA ", " oA", "OA"}, plainBkts, plainUsers}
+	alphaUsers   = alphabet{"user-lookalikes", plainOrgs[:2], plainBkts, []string{"uA", "uB", " uA", "uA ", "UA"}}
+
+	// every name any phase uses (for the absent-name lookups of the state invariants, which are phase independent)
+	allOrgNames     = []string{"oA", "oB", "oA ", " oA", "OA"}
+	allBktNames     = []string{"bA", "bB", " bA", "bA ", "BA", sysTasks, sysMon, " " + sysTasks}
+	allUserNames    = []string{"uA", "uB", " uA", "uA ", "UA"}
+	inPlainAlphabet = map[string]bool{"oA": true, "oB": true, "oA ": true, "bA": true, "bB": true, "uA": true, "uB": true, sysTasks: true, sysMon: true}
+	plainNames      = map[string]bool{"oA": true, "oB": true, "bA": true, "bB": true, "uA": true, "uB": true, sysTasks: true, sysMon: true}
 )
+
+// look is the look-alike class of a name: what is left after the normalisations a store might apply.
+func look(n string) string { return strings.ToLower(strings.TrimSpace(n)) }
 
 const (
 	sysTasks = "_tasks"
@@ -483,11 +507,11 @@ func (a *abs) render() string {
 		fmt.Fprintf(&sb, "org %q[%s]{", n, sh(o.ID))
 		for _, bn := range sortedKeys(o.Bkts) {
 			b := o.Bkts[bn]
-			fmt.Fprintf(&sb, " %s[%s,type=%d]", bn, sh(b.ID), b.Type)
+			fmt.Fprintf(&sb, " %q[%s,type=%d]", bn, sh(b.ID), b.Type)
 		}
 		sb.WriteString(" | members:")
 		for _, un := range sortedKeys(o.Members) {
-			fmt.Fprintf(&sb, " %s(%s)", un, o.Members[un])
+			fmt.Fprintf(&sb, " %q(%s)", un, o.Members[un])
 		}
 		sb.WriteString(" } ")
 	}
@@ -501,14 +525,14 @@ func (a *abs) render() string {
 // ---------------------------------------------------------------------------------------------------------------
 // enabled operations of a state (simplest first)
 
-func enabledOps(a *abs) []Op {
+func enabledOps(a *abs, al alphabet) []Op {
 	var ops []Op
 	users := sortedKeys(a.Users)
 	orgs := sortedKeys(a.Orgs)
-	for _, n := range userNames {
+	for _, n := range al.users {
 		ops = append(ops, Op{K: "createUser", Name: n})
 	}
-	for _, n := range orgNames {
+	for _, n := range al.orgs {
 		ops = append(ops, Op{K: "createOrg", Org: n})
 		for _, u := range users {
 			ops = append(ops, Op{K: "createOrg", Org: n, As: u})
@@ -516,7 +540,7 @@ func enabledOps(a *abs) []Op {
 	}
 	for _, on := range orgs {
 		o := a.Orgs[on]
-		for _, bn := range bktNames {
+		for _, bn := range al.bkts {
 			ops = append(ops, Op{K: "createBucket", Org: on, Name: bn})
 		}
 		ops = append(ops, Op{K: "createBucket", Org: on, Name: sysTasks, Sys: true})
@@ -527,18 +551,19 @@ func enabledOps(a *abs) []Op {
 			ops = append(ops, Op{K: "addMember", Org: on, Name: u}) // also when already a member
 		}
 		for _, bn := range sortedKeys(o.Bkts) {
-			for _, to := range []string{"bA", "bB", sysTasks} {
+			for _, to := range al.bkts {
 				ops = append(ops, Op{K: "renameBucket", Org: on, Name: bn, To: to})
 			}
+			ops = append(ops, Op{K: "renameBucket", Org: on, Name: bn, To: sysTasks})
 			ops = append(ops, Op{K: "deleteBucket", Org: on, Name: bn})
 		}
-		for _, to := range orgNames {
+		for _, to := range al.orgs {
 			ops = append(ops, Op{K: "renameOrg", Org: on, To: to})
 		}
 		ops = append(ops, Op{K: "deleteOrg", Org: on})
 	}
 	for _, u := range users {
-		for _, to := range userNames {
+		for _, to := range al.users {
 			ops = append(ops, Op{K: "renameUser", Name: u, To: to})
 		}
 		ops = append(ops, Op{K: "deleteUser", Name: u})
@@ -748,7 +773,7 @@ func invariants(w *world, s *snap, after string) []finding {
 			add("lookup-disagrees/FindOrganizationByID", "FindOrganizationByID(%s) = (%s, %v), the record is named %q", o.ID, orgStr(got), err, o.Name)
 		}
 	}
-	for _, n := range orgNames {
+	for _, n := range allOrgNames {
 		free := true
 		for _, o := range s.orgs {
 			free = free && !trimEq(o.Name, n) // names equal up to outer blanks: the statement does not say which one a lookup means
@@ -797,7 +822,7 @@ func invariants(w *world, s *snap, after string) []finding {
 			add("listing-disagrees/FindUserResourceMappings(user)", "FindUserResourceMappings(user=%s) err=%v differs from the records: %s", u.ID, err, d)
 		}
 	}
-	for _, n := range userNames {
+	for _, n := range allUserNames { // exact: a lookup by a name that no record carries finds nothing, look-alikes included
 		if _, ok := userByName[n]; ok {
 			continue
 		}
@@ -840,7 +865,7 @@ func invariants(w *world, s *snap, after string) []finding {
 			}
 		}
 		if len(s.bkts) <= 16 { // the domain also probes names that no bucket of the organization has
-			for _, n := range []string{"bA", "bB", sysTasks, sysMon} {
+			for _, n := range allBktNames { // exact: look-alikes of existing names included
 				if _, ok := bktByKey[o.ID+"/"+n]; ok {
 					continue
 				}
@@ -920,41 +945,82 @@ func setDiff(got, want []string) string {
 // judge compares one executed transition with the reference written from the statement.
 //   - an op that would give two organizations / two users / two buckets of one organization the same name, or that
 //     deletes or renames a system bucket, must be rejected and must leave the (abstract) state unchanged;
-//   - an op reported as successful must have exactly its effect (and nothing else may change);
+//   - an op reported as successful must have exactly its effect (and nothing else may change). The statement does
+//     not say whether a store may normalise a requested name (strip outer blanks, fold case): a successful create /
+//     rename may store the requested name or any look-alike of it (same look()); the state invariants then still
+//     demand that the stored names are unique and that every lookup agrees with the stored names;
 //   - an op rejected for any other reason is accepted (the statement is silent), the state invariants still apply;
 //   - system buckets of organizations that survive the op are untouched whatever the op reports;
 //   - a successful organization delete leaves no bucket of it and no membership of it or of its buckets.
 func judge(o Op, pre *abs, preS *snap, err error, post *abs, postS *snap) (class string, fs []finding) {
 	add := func(sig, f string, a ...any) { fs = append(fs, finding{sig, fmt.Sprintf(f, a...)}) }
 	mustFail := ""
-	exp := pre.clone()
+	exp := pre.clone() // only looked at when the op is not forbidden and reports success
 	org := pre.Orgs[o.Org]
+	const notCreated = "<reported success, but there is no new record with the requested name or a look-alike of it>"
 	switch o.K {
 	case "createOrg":
 		if _, ok := pre.Orgs[o.Org]; ok {
 			mustFail = "collision"
-		} else if got, ok := post.Orgs[o.Org]; ok {
-			exp.Orgs[o.Org] = got // contents of the new organization: not constrained by the statement
+		} else {
+			old := map[string]bool{}
+			for _, po := range pre.Orgs {
+				old[po.ID] = true
+			}
+			stored := ""
+			for _, n := range sortedKeys(post.Orgs) {
+				if !old[post.Orgs[n].ID] && look(n) == look(o.Org) && (stored == "" || n == o.Org) {
+					stored = n
+				}
+			}
+			if stored != "" {
+				exp.Orgs[stored] = post.Orgs[stored] // contents of the new organization: not constrained by the statement
+			} else {
+				exp.Orgs[o.Org] = &aOrg{ID: notCreated}
+			}
 		}
 	case "renameOrg":
 		if _, ok := pre.Orgs[o.To]; ok && o.To != o.Org {
 			mustFail = "collision"
 		} else {
+			stored := o.To
+			for _, n := range sortedKeys(post.Orgs) {
+				if post.Orgs[n].ID == org.ID && look(n) == look(o.To) {
+					stored = n
+				}
+			}
 			delete(exp.Orgs, o.Org)
-			exp.Orgs[o.To] = pre.clone().Orgs[o.Org]
+			exp.Orgs[stored] = pre.clone().Orgs[o.Org]
 		}
 	case "deleteOrg":
 		delete(exp.Orgs, o.Org)
 	case "createBucket":
 		if _, ok := org.Bkts[o.Name]; ok {
 			mustFail = "collision"
-		} else if got, ok := post.Orgs[o.Org]; ok {
-			if b, ok := got.Bkts[o.Name]; ok {
-				typ := 0
-				if o.Sys {
-					typ = 1
+		} else {
+			typ := 0
+			if o.Sys {
+				typ = 1
+			}
+			old := map[string]bool{}
+			for _, po := range pre.Orgs {
+				for _, b := range po.Bkts {
+					old[b.ID] = true
 				}
-				exp.Orgs[o.Org].Bkts[o.Name] = aBkt{b.ID, typ}
+			}
+			stored := ""
+			if got, ok := post.Orgs[o.Org]; ok {
+				for _, n := range sortedKeys(got.Bkts) {
+					if !old[got.Bkts[n].ID] && look(n) == look(o.Name) && (stored == "" || n == o.Name) {
+						stored = n
+					}
+				}
+				if stored != "" {
+					exp.Orgs[o.Org].Bkts[stored] = aBkt{got.Bkts[stored].ID, typ}
+				}
+			}
+			if stored == "" {
+				exp.Orgs[o.Org].Bkts[o.Name] = aBkt{notCreated, typ}
 			}
 		}
 	case "renameBucket":
@@ -962,13 +1028,25 @@ func judge(o Op, pre *abs, preS *snap, err error, post *abs, postS *snap) (class
 		_, taken := org.Bkts[o.To]
 		switch {
 		case o.To == o.Name: // not a rename
+		case b.Type == 1 && look(o.To) == look(o.Name):
+			// a look-alike of the system bucket's own name: a store that normalises names sees no rename here. Rejecting
+			// and succeeding are both accepted, but nothing may change (exp stays the pre-state, and the system-bucket
+			// clause below applies whatever the op reports)
 		case b.Type == 1:
 			mustFail = "system-bucket"
 		case taken:
 			mustFail = "collision"
 		default:
+			stored := o.To
+			if got, ok := post.Orgs[o.Org]; ok {
+				for _, n := range sortedKeys(got.Bkts) {
+					if got.Bkts[n].ID == b.ID && look(n) == look(o.To) {
+						stored = n
+					}
+				}
+			}
 			delete(exp.Orgs[o.Org].Bkts, o.Name)
-			exp.Orgs[o.Org].Bkts[o.To] = b
+			exp.Orgs[o.Org].Bkts[stored] = b
 		}
 	case "deleteBucket":
 		if org.Bkts[o.Name].Type == 1 {
@@ -979,19 +1057,39 @@ func judge(o Op, pre *abs, preS *snap, err error, post *abs, postS *snap) (class
 	case "createUser":
 		if _, ok := pre.Users[o.Name]; ok {
 			mustFail = "collision"
-		} else if id, ok := post.Users[o.Name]; ok {
-			exp.Users[o.Name] = id
+		} else {
+			old := map[string]bool{}
+			for _, id := range pre.Users {
+				old[id] = true
+			}
+			stored := ""
+			for _, n := range sortedKeys(post.Users) {
+				if !old[post.Users[n]] && look(n) == look(o.Name) && (stored == "" || n == o.Name) {
+					stored = n
+				}
+			}
+			if stored != "" {
+				exp.Users[stored] = post.Users[stored]
+			} else {
+				exp.Users[o.Name] = notCreated
+			}
 		}
 	case "renameUser":
 		if _, ok := pre.Users[o.To]; ok && o.To != o.Name {
 			mustFail = "collision"
 		} else {
+			stored := o.To
+			for _, n := range sortedKeys(post.Users) {
+				if post.Users[n] == pre.Users[o.Name] && look(n) == look(o.To) {
+					stored = n
+				}
+			}
 			delete(exp.Users, o.Name)
-			exp.Users[o.To] = pre.Users[o.Name]
+			exp.Users[stored] = pre.Users[o.Name]
 			for _, ao := range exp.Orgs {
 				if t, ok := ao.Members[o.Name]; ok {
 					delete(ao.Members, o.Name)
-					ao.Members[o.To] = t
+					ao.Members[stored] = t
 				}
 			}
 		}
@@ -1097,9 +1195,14 @@ func step(w *world, pre *snap, a *abs, o Op, fullOrder bool) stepResult {
 	post := w.dump()
 	r := stepResult{post: post, ctr: w.counters(), postKey: stateKey(post, fullOrder)}
 	after := o.K
-	if strings.HasSuffix(o.K, "Org") && (padded(o.Org) || padded(o.To)) {
+	req := requestedName(o)
+	switch {
+	case strings.HasSuffix(o.K, "Org") && (padded(o.Org) || padded(o.To)):
 		after += ",blankPaddedName"
+	case req != "" && !plainNames[req]:
+		after += ",lookalikeName"
 	}
+	lookalike := hasLookalike(o, a)
 	memoKey := fmt.Sprint(fullOrder) + r.postKey
 	if _, ok := invOK.Load(memoKey); !ok {
 		r.findings = invariants(w, post, after)
@@ -1112,9 +1215,15 @@ func step(w *world, pre *snap, a *abs, o Op, fullOrder bool) stepResult {
 		var fs []finding
 		r.class, fs = judge(o, a, pre, err, pa, post)
 		r.findings = append(r.findings, fs...)
+		if o.K == "deleteOrg" && err == nil {
+			r.findings = append(r.findings, deletedOrgProbes(w, a.Orgs[o.Org])...)
+		}
 		r.nontriv = strings.HasPrefix(r.class, "rejected-collision") || strings.HasPrefix(r.class, "rejected-system") ||
 			(o.K == "deleteOrg" && err == nil && (len(a.Orgs[o.Org].Bkts) > 2 || len(a.Orgs[o.Org].Members) > 0)) ||
-			(strings.HasPrefix(o.K, "rename") && err == nil && o.To != o.Name && o.To != o.Org)
+			(strings.HasPrefix(o.K, "rename") && err == nil && o.To != o.Name && o.To != o.Org) || lookalike
+		if lookalike {
+			r.class += "+lookalike"
+		}
 	} else {
 		r.class = "INVARIANT-BROKEN"
 	}
@@ -1122,6 +1231,102 @@ func step(w *world, pre *snap, a *abs, o Op, fullOrder bool) stepResult {
 		r.class = "VIOLATION:" + r.class
 	}
 	return r
+}
+
+// plainOnly: every name stored in the state belongs to the plain alphabet (or is a system bucket name).
+func plainOnly(a *abs) bool {
+	for n, o := range a.Orgs {
+		if !inPlainAlphabet[n] {
+			return false
+		}
+		for bn := range o.Bkts {
+			if !inPlainAlphabet[bn] {
+				return false
+			}
+		}
+	}
+	for n := range a.Users {
+		if !inPlainAlphabet[n] {
+			return false
+		}
+	}
+	return true
+}
+
+// requestedName is the name a create / rename asks for ("" for the other ops).
+func requestedName(o Op) string {
+	switch o.K {
+	case "createOrg":
+		return o.Org
+	case "createBucket", "createUser":
+		return o.Name
+	case "renameOrg", "renameBucket", "renameUser":
+		return o.To
+	}
+	return ""
+}
+
+// hasLookalike: the op asks for a name that differs from the name of ANOTHER live entity in the same scope (all
+// organizations, the buckets of the organization, all users) only by outer blanks / letter case - the names that
+// collide only if the store normalises one of them.
+func hasLookalike(o Op, a *abs) bool {
+	req := requestedName(o)
+	if req == "" {
+		return false
+	}
+	var scope []string
+	self := ""
+	switch o.K {
+	case "createOrg":
+		scope = sortedKeys(a.Orgs)
+	case "renameOrg":
+		scope, self = sortedKeys(a.Orgs), o.Org
+	case "createBucket":
+		scope = sortedKeys(a.Orgs[o.Org].Bkts)
+	case "renameBucket":
+		scope, self = sortedKeys(a.Orgs[o.Org].Bkts), o.Name
+	case "createUser":
+		scope = sortedKeys(a.Users)
+	case "renameUser":
+		scope, self = sortedKeys(a.Users), o.Name
+	}
+	for _, n := range scope {
+		if n != req && n != self && look(n) == look(req) {
+			return true
+		}
+	}
+	return false
+}
+
+// deletedOrgProbes looks, through the API, for what a successfully deleted organization may have left behind: none
+// of its buckets may be found by id, by (organization, name) or in the listing of the organization.
+func deletedOrgProbes(w *world, org *aOrg) []finding {
+	var fs []finding
+	add := func(sig, f string, a ...any) { fs = append(fs, finding{sig, fmt.Sprintf(f, a...)}) }
+	ctx := context.Background()
+	oid := mustID(org.ID)
+	for _, n := range sortedKeys(org.Bkts) {
+		b := org.Bkts[n]
+		if got, err := w.svc.FindBucketByID(ctx, mustID(b.ID)); err == nil {
+			add("org-delete-leaves-bucket/FindBucketByID", "after the successful delete of organization %s its bucket %s %q is still found by id: %s", org.ID, b.ID, n, bktStr(got))
+		}
+		if got, err := w.svc.FindBucketByName(ctx, oid, n); err == nil {
+			add("org-delete-leaves-bucket/FindBucketByName", "after the successful delete of organization %s its bucket %q is still found by name: %s", org.ID, n, bktStr(got))
+		}
+	}
+	if bs, _, err := w.svc.FindBuckets(ctx, influxdb.BucketFilter{OrganizationID: &oid}); err == nil && len(bs) > 0 {
+		add("org-delete-leaves-bucket/FindBuckets(org)", "after the successful delete of organization %s the listing of its buckets still returns %d buckets, first %s", org.ID, len(bs), bktStr(bs[0]))
+	}
+	all, _, err := w.svc.FindBuckets(ctx, influxdb.BucketFilter{}, influxdb.FindOptions{Limit: influxdb.MaxPageSize})
+	if err == nil {
+		for _, b := range all {
+			if b.OrgID == oid {
+				add("org-delete-leaves-bucket/FindBuckets(all)", "after the successful delete of organization %s the listing of all buckets still returns %s", org.ID, bktStr(b))
+				break
+			}
+		}
+	}
+	return fs
 }
 
 func lastWord(s string) string {
@@ -1207,7 +1412,9 @@ type succ struct {
 }
 
 // bfs explores from the empty store; fullOrder selects the state key; phase labels the outcome classes / notes.
-func bfs(c *vlib.Ctx, phase string, fullOrder bool, maxDepth int) {
+// countPlain=false: transitions that lie entirely inside the plain alphabet (they are part of every phase and are
+// counted by the phase that runs first) are still executed and judged, but not counted again.
+func bfs(c *vlib.Ctx, phase string, al alphabet, fullOrder bool, maxDepth int, countPlain bool) {
 	par := runtime.GOMAXPROCS(0)
 	if par > 16 {
 		par = 16
@@ -1238,7 +1445,7 @@ func bfs(c *vlib.Ctx, phase string, fullOrder bool, maxDepth int) {
 				defer wg.Done()
 				w := newWorld()
 				for i := range next {
-					results[i] = expand(c, w, frontier[i], fullOrder)
+					results[i] = expand(c, w, frontier[i], al, fullOrder, countPlain)
 				}
 			}()
 		}
@@ -1309,7 +1516,7 @@ func bfs(c *vlib.Ctx, phase string, fullOrder bool, maxDepth int) {
 
 // expand replays the node's shortest history from the empty store on the real service (trace validation: the
 // canonical key must be the one under which the state was discovered), then executes every enabled op on a copy.
-func expand(c *vlib.Ctx, w *world, n *node, fullOrder bool) []succ {
+func expand(c *vlib.Ctx, w *world, n *node, al alphabet, fullOrder, countPlain bool) []succ {
 	path := n.path()
 	_, s, a, err := replayPath(w, path)
 	if err != nil {
@@ -1320,19 +1527,24 @@ func expand(c *vlib.Ctx, w *world, n *node, fullOrder bool) []succ {
 		c.HarnessError(fmt.Sprintf("replaying %v does not reproduce the state it was discovered in", path))
 		return nil
 	}
-	c.Trace(1)
+	plainState := plainOnly(a)
+	if countPlain || !plainState {
+		c.Trace(1)
+	}
 	ctr := w.counters()
 	var out []succ
-	for _, o := range enabledOps(a) {
+	for _, o := range enabledOps(a, al) {
 		w.reset(s, ctr)
 		r := step(w, s, a, o, fullOrder)
-		c.Eval(1)
-		c.Transition(1)
 		k := r.postKey
 		c.State(fmt.Sprint(fullOrder) + k)
-		c.Outcome(o.K + ":" + r.class)
-		if r.nontriv {
-			c.NontrivialN(1)
+		if req := requestedName(o); countPlain || !plainState || (req != "" && !inPlainAlphabet[req]) {
+			c.Eval(1)
+			c.Transition(1)
+			c.Outcome(o.K + ":" + r.class)
+			if r.nontriv {
+				c.NontrivialN(1)
+			}
 		}
 		op := o
 		for _, f := range r.findings {
@@ -1389,20 +1601,30 @@ func runPageCase(n int) (class string, fs []finding) {
 
 func TestCheck(t *testing.T) {
 	vlib.Main(t, &vlib.Check{
-		ID: "C30", Level: "model_checking", Workers: 1, QuickBudgetS: 45, ThoroughBudgetS: 780,
+		ID: "C30", Level: "model_checking", Workers: 1, QuickBudgetS: 80, ThoroughBudgetS: 780,
 		Rule: "BFS from the empty store over canonical states of the real tenant.Service on inmem kv (all migrations applied): ops = create/rename/delete organization " +
-			"(names oA, oB and the blank-padded 'oA '; create optionally as an existing user who becomes owner), create/rename/delete bucket (names bA, bB, plus " +
-			"creating/renaming onto/renaming/deleting the system buckets _tasks and _monitoring), create/rename/delete user (uA, uB), add/remove organization membership; " +
-			"every op that is applicable to existing entities is tried in every state, name collisions and same-name renames included; state = dump of the 9 tenant kv buckets " +
-			"with ids renamed by owner names + relative id order; quick: all histories of <= 4 ops; thorough: BFS to closure (or to the depth reported in coverage.bfs when the budget ends first); " +
-			"plus one family outside the tiny domain: organization with N in {1,17..21,97..101,201} user buckets and 2 members next to a second organization, then delete it; " +
-			"non-trivial = transitions rejected for a name collision / system bucket, successful renames, organization deletes that cascade over user buckets or memberships (one per (state, op), distinct by construction)",
+			"(create optionally as an existing user who becomes owner), create/rename/delete bucket (plus creating/renaming onto/renaming/deleting the system buckets _tasks and _monitoring), " +
+			"create/rename/delete user, add/remove organization membership; every op that is applicable to existing entities is tried in every state with every name of the phase's alphabet " +
+			"as create name and as rename target, exact collisions and same-name renames included; state = dump of the 9 tenant kv buckets with ids renamed by owner names + relative id order. " +
+			"Alphabets: plain = organizations {oA, oB, 'oA '}, buckets {bA, bB}, users {uA, uB}; three look-alike phases add, for ONE entity kind each, every name that differs from a plain name " +
+			"only by something a store might normalise away, next to the plain names they would collide with: buckets {bA, bB, ' bA', 'bA ', 'BA', ' _tasks'} (the last one a blank-padded system bucket name), " +
+			"organizations {oA, oB, 'oA ', ' oA', 'OA'}, users {uA, uB, ' uA', 'uA ', 'UA'}. quick: plain alphabet all histories of <= 5 ops, each look-alike phase all histories of <= 4 ops; " +
+			"thorough: plain alphabet BFS to closure under the coarse key plus all histories of <= 7 ops under the full key, each look-alike phase all histories of <= 6 ops (or to the depth reported in coverage.bfs_* when the budget ends first); " +
+			"plus one family outside the tiny domain: organization with N in {1,17..21,97..101,201} user buckets and 2 members next to a second organization, then delete it. " +
+			"The oracle reads only stored names: after every op no two live records of a scope carry the same stored name, every name index entry and every by-name lookup (all names of all alphabets are probed in every state, " +
+			"absent look-alikes included) resolves to exactly the record whose stored name equals the key or to nothing, every live bucket is in the listing of its organization, and after a successful organization delete " +
+			"none of its buckets is found by id, by name or by listing; a successful create/rename may store the requested name or any look-alike of it (trimming / case folding is neither demanded nor forbidden). " +
+			"non-trivial = transitions rejected for a name collision / system bucket, successful renames, organization deletes that cascade over user buckets or memberships, and every create/rename whose requested name " +
+			"is a look-alike of the stored name of another live entity of the same scope (one per (state, op); transitions that lie inside the plain alphabet are counted once, by the plain phase)",
 		Assumptions: []string{
 			"the tenant store keeps no state outside the 9 dumped kv buckets, so a state restored by writing a dump into a fresh migrated store equals the state reached by the history (each state's shortest history is additionally replayed from scratch and compared)",
 			"behaviour depends on ids only through equality and relative order (sequential id generators are injected)",
 			"a TaskService without tasks is attached (DeleteOrganization refuses to finish without one)",
 			"ops aimed at entities that do not exist (stale ids) are not enumerated; memberships are only added to organizations that exist",
-			"names that differ only by outer blanks: the statement does not say whether they collide, both answers are accepted",
+			"look-alike names (equal up to outer blanks and letter case): the statement does not say whether they collide or whether a store may normalise them, so rejecting, storing verbatim and storing a look-alike are all accepted; " +
+				"what is demanded is stated on the stored names only. Look-alikes are explored for one entity kind at a time (union of three phases, not their product), one blank on either side, one case variant",
+			"organization lookups by a name that equals an existing organization's name up to outer blanks are not judged (the organization name index is keyed by the trimmed name); bucket and user lookups are judged exactly",
+			"renaming a system bucket to a look-alike of its own name (' _tasks') may be rejected or reported as a successful no-op; the bucket must be unchanged either way",
 		},
 		Run: func(c *vlib.Ctx) {
 			for _, n := range pageSizes {
@@ -1420,11 +1642,16 @@ func TestCheck(t *testing.T) {
 					c.Violation("page-family/"+f.sig, fmt.Sprintf("N=%d user buckets: %s", n, f.msg), Case{Family: "pagesize", N: n})
 				}
 			}
+			d := 4
 			if c.Quick() {
-				bfs(c, "full", true, 5)
+				bfs(c, "full", alphaPlain, true, 5, true)
 			} else {
-				bfs(c, "coarse", false, 0)
-				bfs(c, "full", true, 7)
+				bfs(c, "coarse", alphaPlain, false, 0, true)
+				bfs(c, "full", alphaPlain, true, 7, true)
+				d = 6
+			}
+			for _, al := range []alphabet{alphaBuckets, alphaOrgs, alphaUsers} {
+				bfs(c, "full_"+al.label, al, true, d, false)
 			}
 		},
 		Replay: func(c *vlib.Ctx, raw json.RawMessage) (bool, string) {
